@@ -13,6 +13,18 @@ CLAIMS = {
    text="Proof of the key-addressing clauses for all keys: Disk.put/Disk.get and JSONDisk.put/get are symbolically executed from /repo per key class (str, bytes, int of any magnitude, float, bool, None, other picklable) and z3 discharges get(put(k)) is k with its type, and for all 28 class pairs x {Disk, JSONDisk}: two keys reach the same (key, raw) index entry iff they are equal under the documented rule. Two JSONDisk defects are recorded findings with proved residuals.",
    note=TRUST + "Key equality for non-native keys is identity of type and structure (A-PICKLE-canon); ints beyond 64 bits count as non-native. Lookup sites (WHERE key = ? AND raw = ?) are covered by the Cache-level checks when claimed. Undecided obligations fall back to the bounded stand-in (native enumeration, never counted as proved).",
    tech="contract-based deductive verification: own AST->z3 VC generator over the real Disk.put/get bodies; known-finding residuals; bounded native stand-in when undecided"),
+ 'C03': dict(
+   text="Proof of the refinement step for the single-item operations: the real bodies of Cache.set, add, touch, incr, get, __contains__, pop, __delitem__, delete (with _transact, _row_insert, _row_update, _cull and volume inlined) are symbolically executed from /repo against a symbolic model of the Cache/Settings tables (SQL texts parsed, triggers read from __init__) for all keys, values, ttls, tags, flags, clock readings, table contents satisfying the representation invariant, 4 eviction policies, symbolic cull_limit/size_limit/statistics; z3 discharges, per fault-free path, the representation invariant and `result and table' = reference operation`, with the frame over the whole table (every other row unchanged or removed as the cull relation allows). Every finite history follows by induction. Bulk removal (clear/evict/expire), iteration, peekitem and length/statistics accessors are covered by the bounded native stand-in only (random histories against a reference dictionary under a mocked clock, 350-item page-boundary scenario), listed under coverage.bounded.",
+   note=TRUST + "Disk.put/get/store/fetch/remove enter as the contracts proved in C01/C02; Cache.reset is an assumed contract; SQLite semantics of the statement subset, A-SQL-det, finite-sum/cardinality arithmetic are trusted; single client, no faults (C08/C14), rows and files agree at entry (C08).",
+   tech="contract-based deductive verification: symbolic execution of the real method bodies over a z3 array model of the tables (parsed SQL), refinement obligations; bounded native differential stand-in for the loops not yet under contract"),
+ 'C04': dict(
+   text="Proof, for every clock reading including the instant t == expire_time, every ttl (None, zero, negative, any real) and every table content, that each site named in the property (get, __contains__, pop, __delitem__/delete, touch, add, incr, set) treats an item as live exactly when it has no expiry or t < expire_time, stores expire_time = entry reading + ttl (NULL without ttl), and that the lazy removal done by writes removes only rows with expire_time < now and at most cull_limit of them (parts refine.cull.* of the write obligations). expire() (any number of items sharing an expiry time, more than a page), pull/peek/peekitem and FanoutCache.expire are covered by the bounded native stand-in only.",
+   note=TRUST + "Same model and trusted base as C03; floats in clock arithmetic are reals; reading of the boundary: invisible from t == expire_time on, expire()/cull required to remove rows with expire_time < now.",
+   tech="contract-based deductive verification (shared refinement obligations of c03 under the C04 view); bounded native stand-in for expire()/queue operations"),
+ 'C09': dict(
+   text="Proof, per eviction policy and for symbolic cull_limit, size_limit, page_count and table contents, that one write (set/add/incr) removes at most cull_limit rows in total and none when it is 0, that rows selected by the policy query are removed only when volume() >= size_limit, never under policy 'none', and that every evicted row sorts before-or-equal every remaining row in the policy's column; that get and incr refresh access_time / access_count exactly as the policy table promises. cull() and per-shard limits of FanoutCache are covered by the bounded native stand-in only.",
+   note=TRUST + "PRAGMA page_count is an opaque non-negative integer; A-SQL-det (DELETE ... IN (identical ordered-limit SELECT) deletes the rows of that SELECT); same table model as C03.",
+   tech="contract-based deductive verification: cull relation obligations over ordered-LIMIT page semantics in z3; bounded native stand-in for cull()"),
  'C13': dict(
    text="Proof, for every key and every shard count n>=1 (symbolic), that each key-addressed FanoutCache method makes exactly one call, on shard hash(key) % n, to the same-named Cache method with arguments matched by Cache's real parameter names, and maps result/Timeout as documented; aggregate methods cover every shard exactly once (loop invariants over a symbolic-length shard tuple; totals include counts carried by Timeout); Disk.hash equals the released routing function, is a pure function of the key, and respects key equality except for the two recorded findings (int/float, signed zero) whose residuals are proved.",
    note=TRUST + "Cache methods are represented by recorders with the outcome lists in contracts/fanout_common.py (assumed callee contracts); adler32 is uninterpreted (replays confirm refutations). Per-shard behaviour equal to an unsharded cache is the composition with C03 (not re-proved here).",
